@@ -31,6 +31,11 @@ from tqv.props.c04 import (
     map_spec,
 )
 
+# caller-owned arrays handed to the library must come back unchanged (see tqv/purity.py)
+from tqv.purity import install as _install_purity  # noqa: E402
+
+_install_purity('toqito.channel_ops')
+
 PROPERTY = "C05"
 RULE = (
     "Cases are drawn by Hypothesis.  Dual part: a linear map given by r in 1..5 pairs (A_k, B_k), input/output "
